@@ -195,6 +195,13 @@ def cases(rng, ctx):
             for sep in SEPS:
                 out.append({'kind': 'slots', 'pat': list(pat), 'sep': sep, 'where': 'call'})
                 out.append({'kind': 'slots', 'pat': list(pat), 'sep': sep, 'where': 'array'})
+    # (slots3) the same pattern in the three separator styles side by side: accepted by all three or by none, and passing the same
+    for n in range(1, 7):
+        for pat in itertools.product([0, 1], repeat=n):
+            if n == 1 and pat == (0,):
+                continue
+            for where in ('call', 'array'):
+                out.append({'kind': 'slots3', 'pat': list(pat), 'where': where})
     for _ in range(150 * sc):
         n = rng.randrange(7, 14)
         pat = [rng.choice([0, 1, 1]) for _ in range(n)]
@@ -276,6 +283,8 @@ def formulas(c):
     k = c['kind']
     if k == 'slots':
         return [slot_formula(c)]
+    if k == 'slots3':
+        return [slot_formula(dict(c, sep=sp)) for sp in SEPS]
     if k == 'num':
         return [num_text(c)]
     if k == 'str':
@@ -376,6 +385,17 @@ def oracle(c, impl_ans):
             return '%r accepted but the function was not called' % f
         if val != want:
             return '%r passes %r; one argument per slot would be %r' % (f, val, want)
+        return None
+    if k == 'slots3':
+        outs = []
+        for f, rec, got in impl_ans:
+            if rec['error'] is not None:
+                outs.append(('rejected', rec['error']))
+            else:
+                outs.append(('accepted', got[0] if c['where'] == 'call' and got else rec['result']))
+        if any(o != outs[0] for o in outs[1:]):
+            return ('the choice of separator changes the outcome: %s' % '; '.join('%r is %s (%r)' % (f, o[0], o[1])
+                                                                                  for (f, _r, _g), o in zip(impl_ans, outs)))
         return None
     if k == 'num':
         f, rec, _ = impl_ans[0]
